@@ -106,6 +106,23 @@ fn main() {
             }
             std::process::exit(exit);
         }
+        "scan" => {
+            // development aid: list every violation kind of every property an engine produces
+            let engine = engine_by_name(&args[2]).unwrap_or_else(|| usage());
+            let runs: u64 = args.get(3).and_then(|v| v.parse().ok()).unwrap_or(20000);
+            let seed = env_u64("VERIF_SEED", 1);
+            let b = runner::run_batch(&*engine, seed, 0, runs, 16, 600.0, false);
+            let mut seen = std::collections::BTreeMap::new();
+            for f in &b.found {
+                let e = seen.entry((f.property, f.kind.clone())).or_insert((0u64, f.run, f.detail.clone()));
+                e.0 += 1;
+            }
+            for ((p, k), (n, run, d)) in seen {
+                let d: String = d.chars().take(600).collect();
+                println!("{} {} x{} first_run={} :: {}", p, k, n, run, d);
+            }
+            println!("runs={} wall={:.1}s", b.runs_done, b.wall_s);
+        }
         "digest" => {
             if args.len() < 6 {
                 usage();
